@@ -172,7 +172,7 @@ def specObs (f : List String) : List String :=
     let c3 :=
       if sp == "~" then []
       else
-        let want := showParams (some (Url.parse (searchB.drop 1)))
+        let want := showParams (some (Url.parseBody (searchB.drop 1)))
         if want == sp then [] else ["searchParams does not list the pairs of the query: query gives " ++ want]
     let portB := b port
     let c4 :=
